@@ -460,10 +460,26 @@ func c14StaleStatus(w *World, r *Report) {
 			// returns a status
 			var derived ssa.Instruction
 			derivedName := ""
-			for _, ref := range *p.Referrers() {
+			// a parameter that a function literal captures lives in a cell: its reads in this
+			// function are reads of the parameter
+			isP := func(v ssa.Value) bool { return v == ssa.Value(p) }
+			refs := append([]ssa.Instruction{}, *p.Referrers()...)
+			if cell := spillCell(p); cell != nil {
+				refs = nil
+				for _, cr := range *cell.Referrers() {
+					if ld, ok := cr.(*ssa.UnOp); ok && ld.Op == token.MUL && ld.Parent() == f {
+						refs = append(refs, *ld.Referrers()...)
+					}
+				}
+				isP = func(v ssa.Value) bool {
+					ld, ok := v.(*ssa.UnOp)
+					return ok && ld.Op == token.MUL && ld.X == ssa.Value(cell)
+				}
+			}
+			for _, ref := range refs {
 				if phi, ok := ref.(*ssa.Phi); ok {
 					for _, e := range phi.Edges {
-						if e != ssa.Value(p) {
+						if !isP(e) {
 							derived, derivedName = phi, phi.Comment
 						}
 					}
@@ -479,7 +495,7 @@ func c14StaleStatus(w *World, r *Report) {
 			}
 			n++
 			var stale []ssa.Instruction
-			for _, ref := range *p.Referrers() {
+			for _, ref := range refs {
 				switch x := ref.(type) {
 				case *ssa.Phi:
 					if ssa.Instruction(x) == derived {
@@ -492,8 +508,8 @@ func c14StaleStatus(w *World, r *Report) {
 				case *ssa.DebugRef:
 					continue
 				}
-				// uses that dominate the derivation are fine (they happen before the override is known)
-				if ref.Block() != derived.Block() && ref.Block().Dominates(derived.Block()) {
+				// uses the derivation cannot flow into are fine (they happen before the override is known)
+				if !instrFlowsTo(derived, ref) {
 					continue
 				}
 				stale = append(stale, ref)
@@ -1054,4 +1070,68 @@ func c18ArgumentRoles(w *World, r *Report) {
 			r.Fail("R18.11", k, token.NoPos, "reviewed call site no longer found")
 		}
 	}
+}
+
+// instrFlowsTo: control can pass from instruction a to instruction b (a phi
+// counts as standing at the start of its block).
+func instrFlowsTo(a, b ssa.Instruction) bool {
+	idx := func(in ssa.Instruction) int {
+		for i, x := range in.Block().Instrs {
+			if x == in {
+				return i
+			}
+		}
+		return -1
+	}
+	seen := map[*ssa.BasicBlock]bool{}
+	work := append([]*ssa.BasicBlock{}, a.Block().Succs...)
+	if a.Block() == b.Block() && idx(a) < idx(b) {
+		return true
+	}
+	for len(work) > 0 {
+		x := work[len(work)-1]
+		work = work[:len(work)-1]
+		if seen[x] {
+			continue
+		}
+		seen[x] = true
+		if x == b.Block() {
+			return true
+		}
+		work = append(work, x.Succs...)
+	}
+	return false
+}
+
+// spillCell: the cell a captured parameter is moved into (its only use is the
+// store that fills the cell), or nil.
+func spillCell(p *ssa.Parameter) *ssa.Alloc {
+	refs := p.Referrers()
+	if refs == nil {
+		return nil
+	}
+	var cell *ssa.Alloc
+	for _, ref := range *refs {
+		switch x := ref.(type) {
+		case *ssa.DebugRef:
+		case *ssa.Store:
+			a, ok := x.Addr.(*ssa.Alloc)
+			if !ok || x.Val != ssa.Value(p) || cell != nil {
+				return nil
+			}
+			cell = a
+		default:
+			return nil
+		}
+	}
+	if cell == nil {
+		return nil
+	}
+	// never assigned again
+	for _, cr := range *cell.Referrers() {
+		if st, ok := cr.(*ssa.Store); ok && st.Addr == ssa.Value(cell) && st.Val != ssa.Value(p) {
+			return nil
+		}
+	}
+	return cell
 }
